@@ -137,6 +137,7 @@ pub struct Node {
 }
 
 pub struct World {
+    pub adv: HashMap<usize, crate::adversary::Adversary>,
     pub fabric: Arc<Fabric>,
     pub nodes: HashMap<usize, Node>,
     pub ids: Arc<Mutex<HashMap<PeerId, usize>>>,
@@ -398,6 +399,7 @@ async fn run_scenario(line: &[&str]) -> String {
     )));
     anemo::verif::trace_enable(true);
     let mut w = World {
+        adv: HashMap::new(),
         fabric: fab.clone(),
         nodes: HashMap::new(),
         ids: Arc::new(Mutex::new(HashMap::new())),
@@ -422,7 +424,10 @@ async fn run_scenario(line: &[&str]) -> String {
                     (None, t.iter().map(|s| s.to_string()).collect())
                 };
                 let i: usize = t2[1].parse().unwrap();
-                let ports: HashMap<usize, u16> = w.nodes.iter().map(|(k, n)| (*k, n.port)).collect();
+                let mut ports: HashMap<usize, u16> = w.nodes.iter().map(|(k, n)| (*k, n.port)).collect();
+                for (k, a) in w.adv.iter() {
+                    ports.insert(*k, a.port);
+                }
                 let pids: HashMap<usize, PeerId> = w.nodes.iter().map(|(k, n)| (*k, n.peer_id)).collect();
                 let fut = net_cmd(t2, w.net(i), ports, pids, w.ids.clone());
                 match bgid {
@@ -537,6 +542,24 @@ async fn run_scenario(line: &[&str]) -> String {
                 let up = n.weak.as_ref().map(|x| x.upgrade().is_some() as u8).unwrap_or(9);
                 format!("closed={} upgrade={up}", closed.map(|c| c.to_string()).unwrap_or("dropped".into()))
             }
+            // adv <i> <cert spec> [signkey=k] [nocert=1]: attach an adversary endpoint
+            "adv" => {
+                let i: usize = t[1].parse().unwrap();
+                let a = kv(&t[2..]);
+                let adv = crate::adversary::Adversary::new(&w.fabric, &a);
+                let port = adv.port;
+                w.adv.insert(i, adv);
+                format!("ok {port}")
+            }
+            // advdial <i> <j> sni=<name>: the adversary dials honest node j
+            "advdial" => {
+                let (i, j): (usize, usize) = (t[1].parse().unwrap(), t[2].parse().unwrap());
+                let a = kv(&t[3..]);
+                let port = w.nodes[&j].port;
+                let sni = a.get("sni").copied().unwrap_or("net").to_string();
+                let adv = w.adv.get_mut(&i).unwrap();
+                adv.dial(j, port, &sni).await
+            }
             "now" => format!("{}", w.start.elapsed().as_micros()),
             "trace" => {
                 // trace lines since the last call, peer ids rewritten to node indices, ports kept
@@ -572,6 +595,9 @@ async fn run_scenario(line: &[&str]) -> String {
         out.push(r);
     }
     // tear everything down inside the runtime so that nothing outlives the scenario
+    for (_, a) in w.adv.drain() {
+        a.endpoint.close(0u32.into(), b"done");
+    }
     for (_, n) in w.nodes.iter_mut() {
         n.sub = None;
         if let Some(net) = n.net.take() {
